@@ -296,6 +296,8 @@ func (ev *evaluator) evalProgram(input string, probes []string, cfgs []config) [
 			v.reason = "input-trace-overflow"
 		case "probe-failure":
 			v.reason = "probe-failure"
+		case "reflection":
+			v.reason = "input-source-text-reflection"
 		}
 		// C09: output compiles and is accepted again (judged whenever the input parses)
 		if !o.Compile {
